@@ -8,7 +8,9 @@ package storage
 import (
 	"math"
 
+	"github.com/prometheus/prometheus/model/histogram"
 	"github.com/prometheus/prometheus/tsdb/chunkenc"
+	"github.com/prometheus/prometheus/tsdb/chunks"
 )
 
 func vpH_C28_sample_ring_add_step() {
@@ -104,5 +106,75 @@ func vpH_C28_sample_ring_reduce_delta() {
 	}
 	_, found := r.nthLast(len(want) + 1)
 	vpAssert(!found, "nothing beyond the oldest sample")
+	vpReach("end")
+}
+
+// The same step for the other three copies of the ring code (integer-histogram, float-histogram and
+// mixed-sample buffers): timestamps only.
+func vpH_C28_sample_ring_add_step_kinds() {
+	kind := vpShape("kind", 1, 3) // 1 histograms, 2 float histograms, 3 mixed (interface buffer)
+	delta := vpInt64()
+	vpAssume(vpAnd(delta >= 0, delta < 1<<62))
+	r := newSampleRing(delta, 0, chunkenc.ValNone)
+	l := vpShape("fill", 1, 4)
+	f := vpShape("first", 0, 3)
+	mk := func(k int, t int64) chunks.Sample {
+		switch {
+		case kind == 1 || (kind == 3 && k%2 == 1):
+			return hSample{t: t, h: &histogram.Histogram{Count: uint64(k)}}
+		case kind == 2:
+			return fhSample{t: t, fh: &histogram.FloatHistogram{Count: float64(k)}}
+		}
+		return fSample{t: t, f: float64(k)}
+	}
+	switch kind {
+	case 1:
+		r.hBuf, r.bufInUse = make([]hSample, 4), hBuf
+	case 2:
+		r.fhBuf, r.bufInUse = make([]fhSample, 4), fhBuf
+	case 3:
+		r.iBuf, r.bufInUse = make([]chunks.Sample, 4), iBuf
+	}
+	r.f, r.l, r.i = f, l, (f+l-1)%4
+	ts := make([]int64, l)
+	for k := 0; k < l; k++ {
+		ts[k] = vpInt64()
+		vpAssume(vpAnd(ts[k] > -(1<<62), ts[k] < 1<<62))
+		if k > 0 {
+			vpAssume(ts[k-1] < ts[k])
+		}
+		s := mk(k, ts[k])
+		switch kind {
+		case 1:
+			r.hBuf[(f+k)%4] = s.(hSample)
+		case 2:
+			r.fhBuf[(f+k)%4] = s.(fhSample)
+		case 3:
+			r.iBuf[(f+k)%4] = s
+		}
+	}
+	vpAssume(ts[0] >= ts[l-1]-delta)
+	nt := vpInt64()
+	vpAssume(vpAnd(nt > ts[l-1], nt < 1<<62))
+	r.add(mk(l, nt))
+	var want []int64
+	for _, t := range ts {
+		if t >= nt-delta {
+			want = append(want, t)
+		}
+	}
+	want = append(want, nt)
+	it := r.iterator()
+	k := 0
+	for it.Next() != chunkenc.ValNone {
+		vpAssert(k < len(want), "no extra sample in the window")
+		if k >= len(want) {
+			return
+		}
+		vpObserve("t", it.AtT())
+		vpAssert(it.AtT() == want[k], "the window holds the samples not older than t - delta, in order")
+		k++
+	}
+	vpAssert(k == len(want), "no sample of the window is lost")
 	vpReach("end")
 }
